@@ -109,6 +109,16 @@ pub fn dzmmap(
     strategy: MmapStrategy,
     annotation: &MmapAnnotation<'_>,
 ) -> MmapResult<Address> {
+    // fault injection: the simulator may make this mmap call fail with ENOMEM
+    #[cfg(mmtk_verif)]
+    if crate::util::verif::rt::fault(crate::util::verif::rt::fault::MMAP, size) {
+        return Err(MmapError::new(
+            start,
+            size,
+            annotation,
+            std::io::Error::from_raw_os_error(libc::ENOMEM),
+        ));
+    }
     let addr = unix_common::mmap(start, size, strategy, annotation)?;
 
     if !cfg!(feature = "no_mmap_annotation") {
